@@ -128,6 +128,8 @@ def c10(F, R, tier):
     e_typed_props.run_c10(F, R)
     from . import e_lti_props
     e_lti_props.run_c10_dc(F, R, tier)
+    e_lti_props.dc_first_output(F, R, tier)
+    R.floor('DC-first', 4)
 
 
 @register('C04', 'other',
